@@ -380,7 +380,7 @@ IfArms(st, s, j) ==
     [st EXCEPT !.k = Append(Adv(@), SeqFrame(s.els, <<s.id, 0>>))]
   ELSE LET r == Eval(s.arms[j].c, st) IN
     IF IsErr(r.v) THEN Fail(r.st, s.id, r.v.c)
-    ELSE IF ~IsNum(r.v) THEN Skip(r.st)
+    ELSE IF ~HasTruth(r.v) THEN Skip(r.st)
     ELSE IF Truth(r.v) THEN [r.st EXCEPT !.k = Append(Adv(@), SeqFrame(s.arms[j].body, <<s.id, j>>))]
     ELSE IfArms(r.st, s, j + 1)
 
@@ -456,7 +456,7 @@ CondHolds(s, v) == IF Has(s, "kind") /\ s.kind = "until" THEN ~Truth(v) ELSE Tru
 ExecPreLoop(st, s) ==
   LET r == Eval(s.c, st) IN
   IF IsErr(r.v) THEN Fail(r.st, s.id, r.v.c)
-  ELSE IF ~IsNum(r.v) THEN Skip(r.st)
+  ELSE IF ~HasTruth(r.v) THEN Skip(r.st)
   ELSE IF CondHolds(s, r.v)
        THEN [r.st EXCEPT !.k = Adv(@) \o <<[f |-> s.k, s |-> s], SeqFrame(s.body, <<s.id, 1>>)>>]
        ELSE [r.st EXCEPT !.k = Adv(@)]
@@ -466,7 +466,7 @@ LoopAgain(st) ==
   LET s == Last(st.k).s
       r == Eval(s.c, st)
   IN IF IsErr(r.v) THEN Fail(r.st, s.id, r.v.c)
-     ELSE IF ~IsNum(r.v) THEN Skip(r.st)
+     ELSE IF ~HasTruth(r.v) THEN Skip(r.st)
      ELSE IF CondHolds(s, r.v)
           THEN [r.st EXCEPT !.k = Append(@, SeqFrame(s.body, <<s.id, 1>>))]
           ELSE [r.st EXCEPT !.k = Front(@)]
